@@ -93,7 +93,9 @@ def job(item):
 def build_items(run):
     N = 4 if run.quick else 6
     items = []
-    for pid, text, goals in families.corpus() + families.corpus("corpus_class") + families.symbolic_templates(run.quick, run.seed):
+    # corpus_neg: programs OUTSIDE the documented class (branching on values that become continuous / unbounded): Polar may refuse
+    # them, but an accepted one must be answered correctly ("a refusal never takes the form of a wrong result")
+    for pid, text, goals in families.corpus() + families.corpus("corpus_class") + families.corpus("corpus_neg") + families.symbolic_templates(run.quick, run.seed):
         items.append({"id": pid, "text": text, "goals": goals, "N": N, "goal_timeout": 40})
     for pid, text, goals in families.repo_benchmarks(run.quick, run.seed):
         items.append({"id": pid, "text": text, "goals": goals, "N": N, "goal_timeout": 40})
